@@ -835,6 +835,21 @@ def stepMoney (st : DState) (args : List String) : Option (DState × String) :=
   | ["mc_today", dt] =>
     (parseDate? dt).map fun t => ({ st with q := { q with today := t } }, "ok")
   | ["mc_update", name, vs, specs, dflt] =>
+    -- a term currency `?CODE` is the symbol of a currency that is NOT
+    -- registered: the update is rejected (ValueError) when that spec is
+    -- reached - unless the validity or an earlier spec is rejected first -,
+    -- and nothing changes
+    let toks := specs.splitOn ";"
+    let known := toks.takeWhile fun t => !t.startsWith "?"
+    if known.length < toks.length then
+      match mcId? st name, parseVSpell? vs,
+          parseSpecs? r (if known.isEmpty then "-" else ";".intercalate known),
+          Rounding.ofName? dflt with
+      | some i, some v, some sp, some d =>
+        let (_, res) := (q.mconvs.getD i default).update d v sp
+        some (st, match res with | .ok _ => "err ValueError" | .error e => "err " ++ e.name)
+      | _, _, _, _ => some (st, bad)
+    else
     match mcId? st name, parseVSpell? vs, parseSpecs? r specs, Rounding.ofName? dflt with
     | some i, some v, some sp, some d =>
       let (c', res) := (q.mconvs.getD i default).update d v sp
